@@ -48,7 +48,12 @@ impl Encode for ScriptEncoder {
                     _ => {}
                 }
             }
-            w.write_all(c)?;
+            if msg.ends_with(":fail") {
+                // what a FAILED record leaves on disk is BufWriter's business (Model/BufW.v models write_all)
+                w.write_all(c)?;
+            } else {
+                vh::util::write_varied(w, c, t + s + i)?;
+            }
         }
         if msg.ends_with(":fail") {
             // a record that cannot be rendered to its end (sequential histories, op kind 2)
